@@ -56,8 +56,12 @@ type Op struct {
 	TTL  int    `json:"ttl,omitempty"` // open: expiry in units, 0 = default
 	Dt   int    `json:"dt,omitempty"`  // tick: units
 	Tok  int    `json:"tok"`           // token number in issue order; a number not issued (yet) is presented as a random string
-	C    int    `json:"c,omitempty"`   // content id
+	C    int    `json:"c,omitempty"`   // content id: 100 * content type + number (below 100: Metadata number)
 	V    int    `json:"v,omitempty"`   // content value (unique per history)
+	CT   int    `json:"ct,omitempty"`  // getall / getallin: content type 1..6
+	Col  int    `json:"col,omitempty"` // addin / getallin: content id of the collection
+	KN   int    `json:"kn,omitempty"`  // import: 1000 + j (seeded key j); use: signing key (created key number or imported id)
+	M    string `json:"m,omitempty"`   // use: method
 }
 
 // Obs is what the implementation did for one op, plus the state of the shared storage afterwards.
@@ -72,7 +76,7 @@ type Obs struct {
 
 func isTokenOp(k string) bool {
 	switch k {
-	case "add", "get", "getall", "remove", "key":
+	case "add", "get", "getall", "remove", "key", "import", "addin", "getallin", "use":
 		return true
 	}
 
@@ -123,7 +127,12 @@ type world struct {
 	grants []*grant
 	now    int
 	kids   []string
+	kpubs  [][]byte // public key of created key k (nil for imported ones)
 	kowner []int
+	nkeys  int // keys made by CreateKeyPair (the model numbers those; imported keys carry their own id)
+	labels map[labelKey]int
+	nota   *notary
+	fresh  int
 	owners map[int]kms.KeyManager
 	// store manager entries (profile -> persisted at, ttl), for the ambiguity check of wallet.New
 	spers map[int]*grant
@@ -139,7 +148,7 @@ func newWorldID() uint64 { return atomic.AddUint64(&worldCounter, 1) }
 
 func newWorld() *world {
 	w := &world{id: newWorldID(), owners: map[int]kms.KeyManager{}, spers: map[int]*grant{},
-		addedBy: map[int]int{}}
+		addedBy: map[int]int{}, labels: map[labelKey]int{}}
 	w.inner = keepProvider{mem.NewProvider()}
 	w.rec = hx.NewRecProvider(w.inner)
 
@@ -149,7 +158,7 @@ func newWorld() *world {
 	}
 
 	w.ctx = &mockprovider.Provider{StorageProviderValue: w.rec, ProtocolStateStorageProviderValue: mem.NewProvider(),
-		CryptoValue: c}
+		CryptoValue: c, VDRegistryValue: didKeyVDR(), DocumentLoaderValue: documentLoader()}
 
 	return w
 }
@@ -247,15 +256,6 @@ type content struct {
 	V    int    `json:"v"`
 }
 
-func contentID(c int) string { return fmt.Sprintf("c%d", c) }
-
-func parseCID(s string) int {
-	n := -1
-	_, _ = fmt.Sscanf(s, "c%d", &n)
-
-	return n
-}
-
 // dump reads the shared storage directly (not through the wallet, not recorded).
 func (w *world) dump(o *Obs) {
 	o.Rows = [][3]int{}
@@ -271,27 +271,28 @@ func (w *world) dump(o *Obs) {
 			panic(err)
 		}
 
-		it, err := st.Query(wallet.Metadata.Name())
-		if err != nil {
-			panic(err)
-		}
-
 		var rows [][3]int
 
-		for {
-			ok, e := it.Next()
-			if e != nil || !ok {
-				break
+		for ct := ctCollection; ct <= ctConnection; ct++ {
+			it, err := st.Query(ctOf(ct * 100).Name())
+			if err != nil {
+				panic(err)
 			}
 
-			v, _ := it.Value()
+			for {
+				ok, e := it.Next()
+				if e != nil || !ok {
+					break
+				}
 
-			var c content
-			_ = json.Unmarshal(v, &c)
-			rows = append(rows, [3]int{u, parseCID(c.ID), c.V})
+				k, _ := it.Key()
+				v, _ := it.Value()
+				c := w.cidOf(ct, strings.TrimPrefix(k, ctOf(ct*100).Name()+"_"))
+				rows = append(rows, [3]int{u, c, w.valueOf(u, c, v)})
+			}
+
+			_ = it.Close()
 		}
-
-		_ = it.Close()
 
 		sort.Slice(rows, func(a, b int) bool { return rows[a][1] < rows[b][1] })
 		o.Rows = append(o.Rows, rows...)
@@ -374,6 +375,10 @@ func (w *world) apply(op Op) (obs Obs, touched []hx.Call) {
 		w.dump(&obs)
 
 		return obs, nil
+	}
+
+	if op.Kind == "use" || op.C/100 == ctCredential {
+		w.notarize() // outside the recorded call: the notary's own storage traffic is not the operation's
 	}
 
 	w.rec.Reset()
@@ -495,39 +500,33 @@ func (w *world) apply(op Op) (obs Obs, touched []hx.Call) {
 
 	switch op.Kind {
 	case "add":
-		b, _ := json.Marshal(content{ID: contentID(op.C), Type: "Metadata", V: op.V})
-		err := x.Add(tok, wallet.Metadata, b)
+		b, err := w.contentFor(op.C, op.V)
+		if err != nil {
+			return Obs{Out: "err", Err: err.Error()}, nil
+		}
+
+		err = x.Add(tok, ctOf(op.C), b)
+		if err == nil {
+			w.labels[labelKey{fmt.Sprint(w.iuser[op.I]), op.C}] = op.V
+		}
 
 		return Obs{Out: classify(err), Err: errStr(err)}, nil
 	case "get":
-		b, err := x.Get(tok, wallet.Metadata, contentID(op.C))
+		b, err := x.Get(tok, ctOf(op.C), w.idStr(op.C))
 		if err != nil {
 			return Obs{Out: classify(err), Err: errStr(err)}, nil
 		}
 
-		var c content
-		_ = json.Unmarshal(b, &c)
-
-		return Obs{Out: "val", N: c.V}, nil
+		return Obs{Out: "val", N: w.valueOf(w.iuser[op.I], op.C, b)}, nil
 	case "getall":
-		m, err := x.GetAll(tok, wallet.Metadata)
+		m, err := x.GetAll(tok, ctOf(op.CT*100))
 		if err != nil {
 			return Obs{Out: classify(err), Err: errStr(err)}, nil
 		}
 
-		all := [][2]int{}
-
-		for k, v := range m {
-			var c content
-			_ = json.Unmarshal(v, &c)
-			all = append(all, [2]int{parseCID(k), c.V})
-		}
-
-		sort.Slice(all, func(a, b int) bool { return all[a][0] < all[b][0] })
-
-		return Obs{Out: "all", All: all}, nil
+		return Obs{Out: "all", All: rowsOfMap(w, w.iuser[op.I], op.CT, m)}, nil
 	case "remove":
-		err := x.Remove(tok, wallet.Metadata, contentID(op.C))
+		err := x.Remove(tok, ctOf(op.C), w.idStr(op.C))
 
 		return Obs{Out: classify(err), Err: errStr(err)}, nil
 	case "key":
@@ -537,8 +536,14 @@ func (w *world) apply(op Op) (obs Obs, touched []hx.Call) {
 		}
 
 		w.kids = append(w.kids, kp.KeyID)
+		w.kpubs = append(w.kpubs, pubOfKeyPair(kp))
+		w.nkeys++
 
-		return Obs{Out: "key", N: len(w.kids) - 1}, nil
+		return Obs{Out: "key", N: w.nkeys - 1}, nil
+	}
+
+	if o, ok := w.applyMore(x, tok, op); ok {
+		return o, nil
 	}
 
 	return Obs{Out: "err", Err: "unknown op"}, nil
@@ -589,15 +594,29 @@ func coqOp(o Op) string {
 	case "get":
 		return fmt.Sprintf("WOp %d%%nat %d (KGet %d)", o.I, tok, o.C)
 	case "getall":
-		return fmt.Sprintf("WOp %d%%nat %d KGetAll", o.I, tok)
+		return fmt.Sprintf("WOp %d%%nat %d (KGetAll %d)", o.I, tok, o.CT)
 	case "remove":
 		return fmt.Sprintf("WOp %d%%nat %d (KRemove %d)", o.I, tok, o.C)
+	case "import":
+		return fmt.Sprintf("WOp %d%%nat %d (KImportKey %d)", o.I, tok, o.KN)
+	case "addin":
+		return fmt.Sprintf("WOp %d%%nat %d (KAddIn %d %d %d)", o.I, tok, o.C, o.V, o.Col)
+	case "getallin":
+		return fmt.Sprintf("WOp %d%%nat %d (KGetAllIn %d %d)", o.I, tok, o.CT, o.Col)
+	case "use":
+		kn := o.KN
+		if kn < 0 {
+			kn = 999
+		}
+
+		return fmt.Sprintf("WOp %d%%nat %d (KUse %s %d %d)", o.I, tok, coqMeth[o.M], o.C, kn)
 	default:
 		return fmt.Sprintf("WOp %d%%nat %d KCreateKey", o.I, tok)
 	}
 }
 
-func coqObs(o Obs) string {
+// coqObs prints one observation; the dump is printed only when it differs from the one before (prev)
+func coqObs(o Obs, prev *Obs) string {
 	var out string
 
 	switch o.Out {
@@ -632,12 +651,16 @@ func coqObs(o Obs) string {
 		out = "RErr"
 	}
 
+	if prev != nil && sameDump(prev, &o) {
+		return "(" + out + ", None)"
+	}
+
 	rows := make([]string, len(o.Rows))
 	for i, r := range o.Rows {
 		rows[i] = fmt.Sprintf("(%d, (%d, %d))", r[0], r[1], r[2])
 	}
 
-	return "(" + out + ", " + hx.CoqList(rows) + ", " + hx.CoqNList(o.Keys) + ")"
+	return "(" + out + ", Some (" + hx.CoqList(rows) + ", " + hx.CoqNList(o.Keys) + "))"
 }
 
 func coqCase(ops []Op, obs []Obs) string {
@@ -647,8 +670,11 @@ func coqCase(ops []Op, obs []Obs) string {
 	}
 
 	b := make([]string, len(obs))
-	for i, o := range obs {
-		b[i] = coqObs(o)
+	prev := &Obs{Rows: [][3]int{}, Keys: []int{}}
+
+	for i := range obs {
+		b[i] = coqObs(obs[i], prev)
+		prev = &obs[i]
 	}
 
 	return "{| c_ops := " + hx.CoqList(a) + "; c_obs := " + hx.CoqList(b) + " |}"
@@ -690,11 +716,20 @@ type seqRun struct {
 	nontrivial bool
 	dist       []string
 	n          int
+	// a listed finding is reported only when nothing else failed in the record (it must never mask a violation)
+	knownSig, knownDetail string
+	importedBy            map[int]int
 }
 
 func newSeqRun(kind string) *seqRun {
 	return &seqRun{w: newWorld(), rec: &hx.Record{Kind: kind, Oracle: "ok"}, prev: Obs{Rows: [][3]int{}, Keys: []int{}},
-		classParts: []string{}}
+		classParts: []string{}, importedBy: map[int]int{}}
+}
+
+func (s *seqRun) finish() {
+	if s.rec.Oracle == "ok" && s.knownSig != "" {
+		s.rec.Oracle, s.rec.Sig, s.rec.Detail = "fail", s.knownSig, s.knownDetail
+	}
 }
 
 func (s *seqRun) fail(sig, detail string) {
@@ -783,8 +818,17 @@ func (s *seqRun) do(op Op) bool {
 		// isolation: whatever comes back through an instance of u was added through an instance of u
 		switch o.Out {
 		case "done":
-			if op.Kind == "add" {
+			if op.Kind == "add" || op.Kind == "addin" {
 				s.w.addedBy[op.V] = u
+			}
+
+			if op.Kind == "import" {
+				s.importedBy[op.KN] = u
+			}
+		case "exists":
+			if by, ok := s.importedBy[op.KN]; op.Kind == "import" && ok && by != u && s.knownSig == "" {
+				s.knownSig = "key-id-of-other-profile-visible"
+				s.knownDetail = fmt.Sprintf("op %d %+v: profile %d is told that key id %d exists; only profile %d holds it", s.n, op, u, op.KN, by)
 			}
 		case "val":
 			if s.w.addedBy[o.N] != u {
@@ -797,7 +841,7 @@ func (s *seqRun) do(op Op) bool {
 				}
 			}
 		case "key":
-			if o.N < len(o.Keys) && o.Keys[o.N] != u {
+			if n := len(o.Keys); n > 0 && o.Keys[n-1] != u { // the key just created is the last row of the key store
 				s.fail("key-under-other-profile", fmt.Sprintf("op %d %+v: key created through an instance of user %d is wrapped for user %d", s.n, op, u, o.Keys[o.N]))
 			}
 		}
@@ -824,6 +868,7 @@ func runOnce(kind string, ops []Op) (*hx.Record, bool) {
 	s := newSeqRun(kind)
 	defer s.w.cleanup()
 
+	ops = normOps(ops)
 	s.rec.Case = map[string]interface{}{"ops": ops}
 	s.dist = []string{fmt.Sprintf("len=%d", len(ops)/10*10)}
 
@@ -833,6 +878,7 @@ func runOnce(kind string, ops []Op) (*hx.Record, bool) {
 		}
 	}
 
+	s.finish()
 	s.rec.Coq = "Seq " + coqCase(ops, s.obs)
 	s.rec.Observed = s.obs
 	s.rec.Class = strings.Join(s.classParts, ",")
@@ -1018,6 +1064,131 @@ func (b *builder) probes(r *hx.Rng, kinds []string) {
 	}
 }
 
+// --- every method class (content of every type, collections, key import, Query ... SignJWT) ---
+
+var useMethods = []string{"query", "issue", "prove-stored", "prove-raw", "verify-stored", "verify-raw", //nolint:gochecknoglobals
+	"derive-stored", "derive-raw", "resolve-stored", "resolve-raw", "signjwt"}
+
+// prep fills profile u through its first instance with its latest token: a key under an explicit id, a collection,
+// the two real credentials (one mapped into the collection), a DID resolution, metadata, a connection, a created key
+func (b *builder) prep(u int) {
+	i, t := b.firstInst(u), b.tokOf(u)
+	v := func() int { b.nextV++; return b.nextV }
+
+	b.ops = append(b.ops,
+		Op{Kind: "import", I: i, Tok: t, KN: importBase + u},
+		Op{Kind: "add", I: i, Tok: t, C: 101, V: v()},
+		Op{Kind: "addin", I: i, Tok: t, C: 201, V: v(), Col: 101},
+		Op{Kind: "add", I: i, Tok: t, C: 202, V: v()},
+		Op{Kind: "add", I: i, Tok: t, C: 301, V: v()},
+		Op{Kind: "add", I: i, Tok: t, C: 401, V: v()},
+		Op{Kind: "addin", I: i, Tok: t, C: 501, V: v(), Col: 101},
+		Op{Kind: "key", I: i, Tok: t},
+	)
+}
+
+// probesFull: every instance x every token issued so far (+ one never issued) x every method class
+func (b *builder) probesFull(r *hx.Rng) {
+	type pr struct{ i, t int }
+
+	var ps []pr
+
+	for i := range b.iuser {
+		for t := -1; t < b.ntok; t++ {
+			ps = append(ps, pr{i, t})
+		}
+	}
+
+	for k := len(ps) - 1; k > 0; k-- {
+		j := r.Intn(k + 1)
+		ps[k], ps[j] = ps[j], ps[k]
+	}
+
+	owner := func(t int) int {
+		for u, lt := range b.latest {
+			if lt == t {
+				return u
+			}
+		}
+
+		return 0
+	}
+
+	for _, p := range ps {
+		u := b.iuser[p.i]
+		v := func() int { b.nextV++; return b.nextV }
+		signer := importBase + u
+
+		if o := owner(p.t); o != 0 && r.Intn(2) == 0 {
+			signer = importBase + o // aim at the key manager of the token's session
+		}
+
+		ops := []Op{
+			{Kind: "get", C: 100*(1+r.Intn(5)) + 1},
+			{Kind: "getall", CT: 1 + r.Intn(6)},
+			{Kind: "getallin", CT: 2 + 3*r.Intn(2), Col: 101},
+			{Kind: "add", C: 100*(3+r.Intn(3)) + 2 + r.Intn(2), V: v()},
+			{Kind: "addin", C: 402 + r.Intn(2), V: v(), Col: 101 + r.Intn(2)},
+			{Kind: "remove", C: 100*(4+r.Intn(2)) + 2 + r.Intn(2)},
+			{Kind: "key"},
+			{Kind: "import", KN: importBase + 1 + r.Intn(4)},
+		}
+
+		for _, m := range useMethods {
+			op := Op{Kind: "use", M: m, C: 201, KN: signer}
+			if m == "derive-stored" {
+				op.C = 202
+			}
+
+			if m == "signjwt" {
+				op.KN = r.Intn(3)
+			}
+
+			ops = append(ops, op)
+		}
+
+		for k := len(ops) - 1; k > 0; k-- {
+			j := r.Intn(k + 1)
+			ops[k], ops[j] = ops[j], ops[k]
+		}
+
+		for _, op := range ops {
+			op.I, op.Tok = p.i, p.t
+			b.ops = append(b.ops, op)
+		}
+	}
+}
+
+func buildFull(r *hx.Rng) []Op {
+	b := newBuilder(2)
+	// a short-lived session is used for the preparation only and has expired before the probes (no liveness decision
+	// near its expiry); the other sessions have the default expiry
+	opens := [][]string{{"openl1", "openl2"}, {"opens1", "openl2"}, {"openl1"}, {"openl1", "opens2"}}[r.Intn(4)]
+
+	for _, e := range opens {
+		b.event(e)
+	}
+
+	for u := 1; u <= 2; u++ {
+		if b.open[u] {
+			b.prep(u)
+		}
+	}
+
+	if opens[0] == "opens1" || (len(opens) > 1 && opens[1] == "opens2") {
+		b.event("full")
+	}
+
+	mid := []string{"close1", "close2", "half", "full", "new1", "new2", "own1", "cross1", "cross2", "crosskey1", "openl1", "openl2", "add1", "garb2"}
+	for k := r.Intn(4); k > 0; k-- {
+		b.event(mid[r.Intn(len(mid))])
+	}
+
+	b.probesFull(r)
+
+	return b.ops
+}
+
 var allKinds = []string{"get", "add", "getall", "key", "remove"} //nolint:gochecknoglobals
 
 type job struct {
@@ -1140,6 +1311,12 @@ func main() {
 		return
 	}
 
+	if os.Getenv("C19_ONLY") == "methods" { // development aid
+		tr.Put(methodsAttack(0))
+		tr.Put(didcommAttack(0))
+		return
+	}
+
 	var jobs []job
 
 	files, _ := filepath.Glob(filepath.Join(args.Extra, "*.json"))
@@ -1185,6 +1362,16 @@ func main() {
 				jobs = append(jobs, job{"directed", build(2, ev, fork(), allKinds)})
 			}
 		}
+	}
+
+	// 2b. every method class under every token class, tied to the model
+	nFull := 70
+	if args.Tier == "thorough" {
+		nFull = 1500
+	}
+
+	for i := 0; i < nFull; i++ {
+		jobs = append(jobs, job{"methods", buildFull(fork())})
 	}
 
 	// 3. seeded random histories over three profiles
@@ -1252,5 +1439,10 @@ func main() {
 	for i := 0; i < nAttack; i++ {
 		tr.Put(signJWTAttack(i))
 		tr.Put(clientAttack(i))
+	}
+
+	for i := 0; i < 1+nAttack/5; i++ {
+		tr.Put(methodsAttack(i))
+		tr.Put(didcommAttack(i))
 	}
 }
